@@ -361,6 +361,7 @@ class EnsembleSampler(MarkovChain):
             "walker_probs": self.walker_probs,
             "n_iterations": self.n_iterations,
             "total_proposals": array(self.total_proposals),
+            "failed_updates": array(self.failed_updates),
             "alpha": self.alpha,
             "max_attempts": self.max_attempts,
             "display_progress": self.display_progress,
@@ -405,8 +406,15 @@ class EnsembleSampler(MarkovChain):
         sampler.total_proposals = [list(v) for v in D["total_proposals"]]
         sampler.max_attempts = int(D["max_attempts"])
 
+        if "failed_updates" in D:
+            sampler.failed_updates = [int(v) for v in D["failed_updates"]]
+        else:
+            sampler.failed_updates = [0] * sampler.n_iterations
+
+        sampler.chain_length = 0
         if "sample" in D:
             sampler.sample = D["sample"]
             sampler.sample_probs = D["sample_probs"]
+            sampler.chain_length = sampler.sample_probs.size
 
         return sampler
